@@ -376,3 +376,30 @@ def _validated_before(f, use, var, key) -> bool:
 
 def names_in_expr(e):
     return {n_.id for n_ in ast.walk(e) if isinstance(n_, ast.Name)}
+
+
+_run_before_r12 = run
+
+
+def run(ctx):
+    _run_before_r12(ctx)
+    # ---- R12 start() resumes the restored children of an interpreter restored in any live-or-terminal status ---------------------------
+    # A snapshot can be taken while a 'done' / 'error' actor still owns running children (completion does not stop them; only stop()
+    # does).  from_snapshot rebuilds those children without consumer tasks; Interpreter.start() on the restored root is what brings
+    # them back.  The loop that restarts the children must therefore be reachable for 'running', 'done' and 'error'.
+    from sa.typestate import status_flow
+    from sa.cfg import cfg_of as _cfg
+    from sa.util import cfg_node_of as _cn, enclosing_loops as _el
+    c, p = ctx.c, ctx.p
+    st = p.method("Interpreter", "start")
+    resumes = [x for x in own_nodes(st.node) if isinstance(x, ast.Call) and isinstance(x.func, ast.Attribute) and x.func.attr == "start"
+               and any(isinstance(l, ast.For) and "_actors" in norm(l.iter) for l in _el(st, x))]
+    if c.expect("R12", "child-resume loop in Interpreter.start", len(resumes), 1, st,
+                "Interpreter.start no longer restarts the restored child actors: a restored hierarchy comes back with dead children"):
+        g = _cfg(st.node)
+        for s0 in ("running", "done", "error"):
+            flow = status_flow(st, frozenset({s0}))
+            ok = all(any(flow.get(i) for i in _cn(st, x)) for x in resumes)
+            c.ob("R12", ok, st, f"children-resumed-when-{s0}", f"start() on an interpreter restored as '{s0}' restarts its restored children" if ok else
+                 f"start() on an interpreter restored with status '{s0}' never reaches the loop that restarts its restored child actors: they keep their "
+                 f"persisted 'running' status but have no consumer task, so every event sent to them is queued and never processed", resumes[0])
